@@ -37,13 +37,15 @@ TIERS = {
                   props=dict(MaxOps=3, MaxCrashes=1, Ops="OpsQuick"), budget=150, sem_dedupe=True,
                   text_len=2, text_budget=36, extra_workloads=0),
     "thorough": dict(design=dict(MaxOps=4, MaxCrashes=2, Ops="OpsQuick"), emit=dict(MaxOps=3, Ops="OpsFull"),
-                     props=dict(MaxOps=3, MaxCrashes=2, Ops="OpsQuick"), budget=3200, sem_dedupe=False,
-                     text_len=3, text_budget=700, extra_workloads=60),
+                     props=dict(MaxOps=3, MaxCrashes=2, Ops="OpsQuick"), budget=1200, sem_dedupe=False,
+                     text_len=3, text_budget=300, extra_workloads=40, fixed=dict(MaxOps=3, MaxCrashes=2, Ops="OpsQuick")),
 }
 # invariants of ModelDB.tla expected to FAIL on the protocol as written (design-level findings), property letter
 PROP_INVARIANTS = [("InvI", "I"), ("InvIOther", "I"), ("InvD", "D"), ("InvDOther", "D"), ("InvA", "A"),
                    ("InvLog", "L"), ("InvAnn", "L"), ("InvName", "D"), ("InvNameNoCrash", "D")]
 HOLDING = ["TypeOK", "PendingGuards", "DatainfoLast", "LocksScoped", "CleanStoreWorks"]
+# the protocol with the proposed repairs (proposed_fixes/C16-F1, -F4, -F5): these hold
+FIXED_HOLDING = ["TypeOK", "PendingGuards", "LocksScoped", "LogHeaderOK", "InvLogNoTorn", "InvI", "InvDOther", "InvA", "InvAnn"]
 ACTIONS = ["InitDirs", "OpenLogHeader", "WriteLogHeader", "InitCommon", "MkKeyDirs", "TouchLock", "LockEx", "TouchPending",
            "ListHashDir", "ReadDatainfo", "MkHashDir", "ScanDatasetNumbers", "TouchIndex", "OpenCsv", "CloseCsv",
            "OpenDatainfo", "CloseDatainfo", "MkModelDir", "OpenModel", "CloseModel", "MkMetaDir", "OpenResults",
@@ -508,7 +510,8 @@ def _outcome(ev, bad):
         if "model" in best:
             return "mismatch:other_model"      # the entry of a different model
         if "data" in best:
-            return "mismatch:dataset"          # the right model bound to another dataset
+            # the right model bound to the dataset of another model / to something that is no stored dataset at all
+            return "mismatch:other_dataset" if c.get("data") in ("d1", "d2") else "mismatch:corrupt_dataset"
         if "hash" in best:
             return "mismatch:hash"
         if "res" in best:
@@ -625,6 +628,9 @@ def main(tier: str, seed: int) -> int:
         tcfg = sc / "text.cfg"
         tcfg.write_text((SPEC / "ModelDBText.cfg").read_text().replace("MaxLen = 2", f"MaxLen = {T['text_len']}"))
         w_text = _bg(_run_text, tcfg)
+        w_fixed = None
+        if T.get("fixed"):
+            w_fixed = _bg(_run_design, _cfg("ModelDBFixed.cfg", sc, "fixed.cfg", T["fixed"], FIXED_HOLDING), 8)
 
         core.use_repo()
         import pharmpy.modeling  # noqa: F401
@@ -864,6 +870,14 @@ def main(tier: str, seed: int) -> int:
         core.require_actions(design, ACTIONS, "ModelDB.tla")
         core.tlc_stats_into(v, design)
 
+        if w_fixed is not None:
+            fixed = w_fixed()
+            core.require_ok(fixed, "ModelDB.tla (repaired protocol)")
+            v.add_coverage(states=fixed.distinct, transitions=fixed.generated,
+                           repaired_protocol={"fix": ["IndexLast", "AtomicAnn", "LogHeader"], "invariants": FIXED_HOLDING, "constants": T["fixed"],
+                                              "states": fixed.distinct, "holds": fixed.violated is None, "violated": fixed.violated})
+            if fixed.violated:
+                v.notes.append(f"design: the repaired protocol violates {fixed.violated} (proposed fix is incomplete)")
         nontrivial = sum(1 for t in traces[:n_crash_traces] if t["case"]["crash"]["window"] not in ("Open", "Begin", "Read", "End"))
         sample = []
         for t in traces[:n_crash_traces][:: max(1, n_crash_traces // 4)][:4]:
